@@ -110,6 +110,12 @@ def gen(rng, tier):
     for ms in (300, 500):
         cases.append("R 100 ok 0 0 %s" % "+".join(req("GET", "/w%d" % ms)))
         cases.append("R 100 ok 0 0 %s" % "+".join(req("POST", "/w%d" % ms, body=(5, 3))))
+    # a handler that panics when it is first consulted about a body that is still pending (a long declared body, a body of
+    # unknown length): the panic is a 500 like any other, and the pipeline's earlier answers stand (full server)
+    for body in ((70000, 5), (101, 9)):
+        cases.append("S 100 ok 0 0 %s" % "+".join(req("GET", "/n200") + req("POST", "/p", body=body)))
+        cases.append("S 100 ok 0 0 %s" % "+".join(req("PUT", "/p", body=body)))
+    cases.append("S 100 ok 0 0 %s" % "+".join(req("POST", "/p", body=(30, 4), declared=False)))
     # responses whose body source fails after the head was sent: alone, after earlier answers, with pipelined followers
     # ... and whose file is LONGER than declared (/fl<k>): exactly the declared bytes go out, the connection carries on
     for beh in ("/fs0", "/fs3", "/fs9", "/fm", "/fs10", "/fl1", "/fl12", "/fl70000"):
